@@ -1,0 +1,26 @@
+//go:build verif
+
+// Contracts for package common, read by /verif's govc. Comments only; compiled only under tag "verif".
+
+package common
+
+//@ func ReadPoint
+//@ props C10 C06
+//@ prelude field curve bytesint io
+//@ let p0 = rpos(r)
+//@ ensures err == nil <==> (avail(r, p0, 32) && okPointAt(r, p0))
+//@ ensures err == nil ==> fresh(result0) && rpos(r) == p0 + 32
+//@ ensures err == nil ==> result0.inner.X == rdx(r, p0) && result0.inner.Y * result0.inner.Y == y2(rdx(r, p0)) && result0.inner.Z == fp_one
+//@ ensures err == nil ==> (fp_lexlargest(result0.inner.Y) || result0.inner.Y == fp_zero)
+//@ ensures rpos(r) >= p0 && rpos(r) <= p0 + 32
+//@ modifies rpos(r)
+
+//@ func ReadScalar
+//@ props C10 C16
+//@ view limbs
+//@ prelude frint bytesint io
+//@ let p0 = rpos(r)
+//@ ensures err == nil <==> (avail(r, p0, 32) && okScalarAt(r, p0))
+//@ ensures err == nil ==> fresh(result0) && rpos(r) == p0 + 32 && I(*result0) < R_MOD && fval(I(*result0)) == LEb(rd_data(r), p0, 32)
+//@ ensures rpos(r) >= p0 && rpos(r) <= p0 + 32
+//@ modifies rpos(r)
